@@ -1,6 +1,760 @@
-//! C01 — not implemented yet.
-use crate::report::{Cfg, Report};
+//! C01 — linear systems are solved to working precision through every entry point (DESIGN §3 C01).
+//!
+//! Events: every return (value or panic) of the six public solve / inverse entry points
+//! (`solve`, `solve_sys`, `invert_matrix`, `Matrix::solve(&Vector)`, `Matrix::solve(&Matrix)`,
+//! `Matrix::inv`) on a generated nonsingular system `A·X = B`.
+//! Oracle: the residual `A·X − B` is evaluated in double-double and the *column-wise normwise
+//! backward error* `‖A·x_j − b_j‖∞ / (‖A‖∞‖x_j‖∞ + ‖b_j‖∞)` must be `≤ C·n·ε` (a non-finite
+//! entry counts as an infinite backward error). Integer systems carry their exact solution and are
+//! also checked forward (`κ∞`-scaled). The factorisation that really ran is read from the
+//! `solve.*` hooks; when Cholesky ran, the same system is presented again with its rows rotated
+//! (which destroys the symmetry and forces LU) and both answers have to agree within the
+//! forward bound. Multi-RHS: column `j` of `X` is paired with column `j` of `B` (columns of `B` differ
+//! in scale and content, so a layout slip is an O(1) residual) and compared with the single-RHS
+//! answer.
+use crate::gen::Rng;
+use crate::oracle::dd::Dd;
+use crate::oracle::{exact, linref};
+use crate::report::{guard, jf, jnum, par_cases, Cfg, Hasher, Report};
+use compute::linalg::{invert_matrix, solve, solve_sys, Matrix, Solve, Vector};
+use compute::verif_hooks::{count, Site};
+use serde_json::{json, Value};
 
-pub fn run(_cfg: &Cfg, rep: &mut Report) {
-    rep.inconclusive("monitor for C01 not implemented".to_string());
+/// backward-error constant: bound = C · n · ε  (DESIGN: c = 16; worst observed is recorded in notes)
+const C: f64 = 16.0;
+const EPS: f64 = f64::EPSILON;
+
+const RHS_COLUMNS: [&str; 6] = ["rhs-columns:1", "rhs-columns:2", "rhs-columns:3", "rhs-columns:4", "rhs-columns:5", "rhs-columns:6"];
+
+/// cheap order-sensitive digest of the bit patterns (the byte-wise `Hasher::fs` costs 3 ms per float under Miri)
+fn bits_digest(xs: &[f64]) -> u64 {
+    let mut h: u64 = 0x9E3779B97F4A7C15;
+    for x in xs {
+        h = (h.rotate_left(5) ^ x.to_bits()).wrapping_mul(0x100000001b3);
+    }
+    h
+}
+
+const CLASSES: [&str; 8] = [
+    "dense",
+    "integer",
+    "spd",
+    "sym-indef-posdiag",
+    "diag-dominant",
+    "tri-perm-scaled",
+    "graded",
+    "tiny-nonsym-posdiag",
+];
+
+/// assertion ids of one entry point (static strings: `format!` costs milliseconds under Miri)
+struct Entry {
+    name: &'static str,
+    no_panic: &'static str,
+    shape: &'static str,
+    residual: &'static str,
+    forward_exact: &'static str,
+    note: &'static str,
+}
+macro_rules! entry {
+    ($n:literal) => {
+        Entry {
+            name: $n,
+            no_panic: concat!("C01.", $n, ".no_panic"),
+            shape: concat!("C01.", $n, ".shape"),
+            residual: concat!("C01.", $n, ".residual"),
+            forward_exact: concat!("C01.", $n, ".forward_exact"),
+            note: concat!("worst_ratio.", $n, ".backward_error_over_n_eps"),
+        }
+    };
+}
+const SOLVE: Entry = entry!("solve");
+const SOLVE_SYS: Entry = entry!("solve_sys");
+const INVERT_MATRIX: Entry = entry!("invert_matrix");
+const M_SOLVE_VEC: Entry = entry!("Matrix.solve_vec");
+const M_SOLVE_MAT: Entry = entry!("Matrix.solve_mat");
+const M_INV: Entry = entry!("Matrix.inv");
+
+struct Sys {
+    regime: &'static str,
+    n: usize,
+    k: usize,
+    a: Vec<f64>,
+    /// row-major n×k
+    b: Vec<f64>,
+    /// exact solution (row-major n×k) when known
+    xstar: Option<Vec<f64>>,
+    /// how the instance was built (goes into the replay record)
+    how: String,
+}
+
+// ------------------------------------------------------------------------------------------------
+// small dense helpers (row-major)
+
+fn max_abs(x: &[f64]) -> f64 {
+    x.iter().fold(0.0f64, |m, v| if v.is_nan() { f64::NAN } else { m.max(v.abs()) })
+}
+fn col(m: &[f64], n: usize, k: usize, j: usize) -> Vec<f64> {
+    (0..n).map(|i| m[i * k + j]).collect()
+}
+fn all_finite(x: &[f64]) -> bool {
+    x.iter().all(|v| v.is_finite())
+}
+
+/// |Σ_t x_t·y_t − c| with the sum in double-double. Under Miri a double-double operation costs about a
+/// millisecond, so there the sum is taken in plain f64: its own rounding error is at most
+/// (len+1)·ε/2·(Σ|x_t·y_t| + |c|), which adds less than 1 to ratios that are compared with C = 16.
+fn sum_prod_minus(c: f64, len: usize, term: impl Fn(usize) -> (f64, f64)) -> f64 {
+    if cfg!(miri) {
+        let mut s = -c;
+        for t in 0..len {
+            let (x, y) = term(t);
+            s += x * y;
+        }
+        s.abs()
+    } else {
+        let mut s = Dd::new(-c);
+        for t in 0..len {
+            let (x, y) = term(t);
+            s = s + Dd::prod(x, y);
+        }
+        s.f().abs()
+    }
+}
+
+/// κ∞(A) from an inverse computed in double-double (natively) or by plain f64 Gauss–Jordan with
+/// partial pivoting (Miri; only used as a gate / forward-error scale, where 1e-16·κ accuracy suffices)
+fn cond_inf(a: &[f64], n: usize) -> f64 {
+    if !cfg!(miri) {
+        return linref::cond_inf(a, n);
+    }
+    let mut m = a.to_vec();
+    let mut inv = vec![0.0; n * n];
+    for i in 0..n {
+        inv[i * n + i] = 1.0;
+    }
+    for c in 0..n {
+        let mut p = c;
+        for r in c + 1..n {
+            if m[r * n + c].abs() > m[p * n + c].abs() {
+                p = r;
+            }
+        }
+        if m[p * n + c] == 0.0 || !m[p * n + c].is_finite() {
+            return f64::INFINITY;
+        }
+        if p != c {
+            for j in 0..n {
+                m.swap(p * n + j, c * n + j);
+                inv.swap(p * n + j, c * n + j);
+            }
+        }
+        let piv = m[c * n + c];
+        for j in 0..n {
+            m[c * n + j] /= piv;
+            inv[c * n + j] /= piv;
+        }
+        for r in 0..n {
+            if r != c && m[r * n + c] != 0.0 {
+                let f = m[r * n + c];
+                for j in 0..n {
+                    m[r * n + j] -= f * m[c * n + j];
+                    inv[r * n + j] -= f * inv[c * n + j];
+                }
+            }
+        }
+    }
+    linref::inf_norm(a, n, n) * linref::inf_norm(&inv, n, n)
+}
+
+/// ‖A·x − b‖∞ with every row accumulated in double-double.
+fn resid_inf(a: &[f64], n: usize, x: &[f64], b: &[f64]) -> f64 {
+    let mut w = 0.0f64;
+    for i in 0..n {
+        let v = sum_prod_minus(b[i], n, |t| (a[i * n + t], x[t]));
+        if v.is_nan() {
+            return f64::INFINITY;
+        }
+        w = w.max(v);
+    }
+    w
+}
+
+/// normwise backward error of `x` as a solution of `A x = b`; +inf if `x` is not finite.
+fn backward_error(a: &[f64], n: usize, anorm: f64, x: &[f64], b: &[f64]) -> f64 {
+    if x.len() != n || !all_finite(x) {
+        return f64::INFINITY;
+    }
+    let r = resid_inf(a, n, x, b);
+    let den = anorm * max_abs(x) + max_abs(b);
+    if den == 0.0 {
+        if r == 0.0 {
+            0.0
+        } else {
+            f64::INFINITY
+        }
+    } else {
+        r / den
+    }
+}
+
+fn diff_inf(x: &[f64], y: &[f64]) -> f64 {
+    if x.len() != y.len() {
+        return f64::INFINITY;
+    }
+    let mut w = 0.0f64;
+    for (a, b) in x.iter().zip(y) {
+        let d = (a - b).abs();
+        if d.is_nan() {
+            return f64::INFINITY;
+        }
+        w = w.max(d);
+    }
+    w
+}
+
+fn is_diagonal(a: &[f64], n: usize) -> bool {
+    (0..n).all(|i| (0..n).all(|j| i == j || a[i * n + j] == 0.0))
+}
+
+/// the input class that triggers the absolute symmetry tolerance: all |a_ij − a_ji| ≤ 2.2e-16 although
+/// the matrix is not symmetric, and the diagonal is positive
+fn tiny_nonsym_posdiag(a: &[f64], n: usize) -> bool {
+    let mut exact_sym = true;
+    for i in 0..n {
+        if !(a[i * n + i] > 0.0) {
+            return false;
+        }
+        for j in i + 1..n {
+            let d = (a[i * n + j] - a[j * n + i]).abs();
+            if d > EPS {
+                return false;
+            }
+            if d != 0.0 {
+                exact_sym = false;
+            }
+        }
+    }
+    !exact_sym
+}
+
+/// exactly symmetric with a positive diagonal, yet not positive definite (reference Cholesky fails)
+fn sym_posdiag_not_pd(a: &[f64], n: usize) -> bool {
+    for i in 0..n {
+        if !(a[i * n + i] > 0.0) {
+            return false;
+        }
+        for j in i + 1..n {
+            if a[i * n + j] != a[j * n + i] {
+                return false;
+            }
+        }
+    }
+    linref::cholesky(a, n).is_none()
+}
+
+// ------------------------------------------------------------------------------------------------
+// generators
+
+fn rhs(rng: &mut Rng, n: usize, k: usize) -> Vec<f64> {
+    // columns differ in scale (×4 per column, alternating sign) and content
+    let mut b = vec![0.0; n * k];
+    for j in 0..k {
+        let s = 4f64.powi(j as i32) * if j % 2 == 0 { 1.0 } else { -1.0 };
+        for i in 0..n {
+            b[i * k + j] = s * (0.25 + rng.f64()) * if rng.chance(0.3) { -1.0 } else { 1.0 };
+        }
+    }
+    b
+}
+
+fn gen_dense(rng: &mut Rng, n: usize) -> (Vec<f64>, String) {
+    let scale = rng.log_range(1e-3, 1e3);
+    let a: Vec<f64> = (0..n * n).map(|_| scale * rng.range(-1.0, 1.0)).collect();
+    (a, format!("uniform(-1,1) entries x {:e}", scale))
+}
+
+fn gen_diag_dom(rng: &mut Rng, n: usize, positive_diag: bool) -> Vec<f64> {
+    let mut a: Vec<f64> = (0..n * n).map(|_| rng.range(-1.0, 1.0)).collect();
+    for i in 0..n {
+        let off: f64 = (0..n).filter(|&j| j != i).map(|j| a[i * n + j].abs()).sum();
+        let d = off + rng.range(0.1, 1.0);
+        a[i * n + i] = if positive_diag || rng.bool() { d } else { -d };
+    }
+    a
+}
+
+fn gen_spd(rng: &mut Rng, n: usize) -> (Vec<f64>, String) {
+    let g: Vec<f64> = (0..n * n).map(|_| rng.range(-1.0, 1.0)).collect();
+    let mut a = vec![0.0; n * n];
+    for i in 0..n {
+        for j in i..n {
+            let mut s = 0.0;
+            for t in 0..n {
+                s += g[t * n + i] * g[t * n + j];
+            }
+            a[i * n + j] = s;
+            a[j * n + i] = s;
+        }
+    }
+    let u = rng.range(0.0, 8.0);
+    let delta = linref::inf_norm(&a, n, n) * 10f64.powf(-u);
+    for i in 0..n {
+        a[i * n + i] += delta;
+    }
+    (a, format!("G^T G + delta I, delta = |G^T G|_inf * 1e-{:.2} (cond <= 1e8)", u))
+}
+
+fn gen_sym_indef(rng: &mut Rng, n: usize) -> Vec<f64> {
+    let mut a = vec![0.0; n * n];
+    for i in 0..n {
+        for j in i..n {
+            let v = if i == j { rng.range(0.1, 1.0) } else { rng.range(-1.0, 1.0) };
+            a[i * n + j] = v;
+            a[j * n + i] = v;
+        }
+    }
+    // a 2x2 principal minor with negative determinant makes the matrix indefinite
+    let p = rng.usize(0, n - 2);
+    let q = rng.usize(p + 1, n - 1);
+    let v = rng.range(1.25, 2.0) * (a[p * n + p] * a[q * n + q]).sqrt() * if rng.bool() { 1.0 } else { -1.0 };
+    a[p * n + q] = v;
+    a[q * n + p] = v;
+    a
+}
+
+fn gen_tri_perm_scaled(rng: &mut Rng, n: usize) -> (Vec<f64>, String) {
+    let lower = rng.bool();
+    let mut t = vec![0.0; n * n];
+    for i in 0..n {
+        for j in 0..n {
+            let inside = if lower { j < i } else { j > i };
+            if i == j {
+                t[i * n + j] = rng.range(0.5, 2.0) * if rng.bool() { 1.0 } else { -1.0 };
+            } else if inside {
+                t[i * n + j] = rng.range(-1.0, 1.0);
+            }
+        }
+    }
+    let ident: Vec<usize> = (0..n).collect();
+    let p = if rng.chance(0.2) { ident.clone() } else { rng.perm(n) };
+    let q = if rng.chance(0.2) { ident } else { rng.perm(n) };
+    let kexp = match rng.usize(0, 5) {
+        0 => -60,
+        1 => 60,
+        2 => 0,
+        _ => rng.int(-60, 60) as i32,
+    };
+    let s = 2f64.powi(kexp);
+    let mut a = vec![0.0; n * n];
+    for i in 0..n {
+        for j in 0..n {
+            a[i * n + j] = s * t[p[i] * n + q[j]];
+        }
+    }
+    (a, format!("P·T·Q·2^{} with T {} triangular", kexp, if lower { "lower" } else { "upper" }))
+}
+
+fn gen_graded(rng: &mut Rng, n: usize) -> (Vec<f64>, String) {
+    let e = rng.range(0.0, 10.0);
+    let rev = rng.bool();
+    let mut a: Vec<f64> = (0..n * n).map(|_| rng.range(-1.0, 1.0)).collect();
+    for i in 0..n {
+        let pos = if rev { n - 1 - i } else { i };
+        let f = if n > 1 { 10f64.powf(-e * pos as f64 / (n - 1) as f64) } else { 1.0 };
+        for j in 0..n {
+            a[i * n + j] *= f;
+        }
+    }
+    (a, format!("uniform(-1,1) rows graded over 1e-{:.2}{}", e, if rev { " (reversed)" } else { "" }))
+}
+
+/// κ∞ from the double-double inverse; None if singular / too ill-conditioned for the class
+fn cond_ok(a: &[f64], n: usize, limit: f64) -> Option<f64> {
+    let c = cond_inf(a, n);
+    if c.is_finite() && c <= limit {
+        Some(c)
+    } else {
+        None
+    }
+}
+
+fn generate(rng: &mut Rng, class: &'static str, n: usize) -> Option<(Sys, f64)> {
+    let k = rng.usize(1, 6);
+    for _attempt in 0..50 {
+        let mut xstar = None;
+        let mut b = None;
+        let (a, how): (Vec<f64>, String) = match class {
+            "dense" => gen_dense(rng, n),
+            "integer" => {
+                let ai = rng.ints(n * n, -9, 9);
+                let aint: Vec<i64> = ai.iter().map(|&v| v as i64).collect();
+                if n <= 10 && exact::bareiss_det(&aint, n) == Some(0) {
+                    continue;
+                }
+                let xs = rng.ints(n * k, -9, 9);
+                let mut bb = vec![0.0; n * k];
+                for i in 0..n {
+                    for j in 0..k {
+                        let mut s: i64 = 0;
+                        for t in 0..n {
+                            s += aint[i * n + t] * xs[t * k + j] as i64;
+                        }
+                        bb[i * k + j] = s as f64;
+                    }
+                }
+                xstar = Some(xs);
+                b = Some(bb);
+                (ai, "integer entries in -9..9, B = A·X* with integer X* (exact)".to_string())
+            }
+            "spd" => gen_spd(rng, n),
+            "sym-indef-posdiag" => (gen_sym_indef(rng, n), "symmetric uniform(-1,1), diagonal in (0.1,1), one 2x2 principal minor negative".to_string()),
+            "diag-dominant" => (gen_diag_dom(rng, n, false), "strictly row diagonally dominant, random diagonal signs".to_string()),
+            "tri-perm-scaled" => gen_tri_perm_scaled(rng, n),
+            "graded" => gen_graded(rng, n),
+            _ => {
+                // tiny-nonsym-posdiag: a well-conditioned non-symmetric matrix at scale 2^-54 .. 2^-70
+                let kexp = -(rng.int(54, 70) as i32);
+                let mut a = gen_diag_dom(rng, n, true);
+                let s = 2f64.powi(kexp);
+                a.iter_mut().for_each(|v| *v *= s);
+                (a, format!("row diagonally dominant, positive diagonal, non-symmetric, x 2^{}", kexp))
+            }
+        };
+        let limit = match class {
+            "graded" => 1e14,
+            "tri-perm-scaled" => 1e14,
+            "spd" => 1e10,
+            _ => 1e10,
+        };
+        let kappa = match cond_ok(&a, n, limit) {
+            Some(c) => c,
+            None => continue,
+        };
+        let mut regime = class;
+        if class == "tiny-nonsym-posdiag" && !tiny_nonsym_posdiag(&a, n) {
+            continue;
+        }
+        // regimes are classes of *inputs*: an instance of another generator that happens to fall into
+        // one of the two narrow classes is labelled as such (e.g. the integer matrix [3 8; 8 6])
+        if class == "tri-perm-scaled" && tiny_nonsym_posdiag(&a, n) {
+            regime = "tiny-nonsym-posdiag";
+        }
+        if class != "sym-indef-posdiag" && sym_posdiag_not_pd(&a, n) {
+            regime = "sym-indef-posdiag";
+        }
+        if class == "sym-indef-posdiag" && !sym_posdiag_not_pd(&a, n) {
+            continue;
+        }
+        let b = b.unwrap_or_else(|| rhs(rng, n, k));
+        return Some((Sys { regime, n, k, a, b, xstar, how }, kappa));
+    }
+    None
+}
+
+// ------------------------------------------------------------------------------------------------
+// monitor
+
+struct Ctx<'a> {
+    s: &'a Sys,
+    anorm: f64,
+    kappa: f64,
+    tol: f64,
+}
+
+impl Ctx<'_> {
+    fn detail(&self, entry: &str, column: Option<usize>, routing: &str, observed: Value) -> Value {
+        let s = self.s;
+        json!({"entry": entry, "class": s.regime, "how": s.how, "n": s.n, "rhs_columns": s.k, "column": column,
+               "routing": routing, "A": jf(&s.a), "B": jf(&s.b), "cond_inf": jnum(self.kappa),
+               "bound_backward_error": self.tol, "observed": observed})
+    }
+
+    /// residual (+ exact forward) check of one solution column
+    fn check_column(&self, rep: &mut Report, e: &Entry, j: usize, x: &[f64], routing: &str) -> bool {
+        let entry = e.name;
+        let s = self.s;
+        let bj = col(&s.b, s.n, s.k, j);
+        let be = backward_error(&s.a, s.n, self.anorm, x, &bj);
+        let ok = be <= self.tol;
+        if ok {
+            rep.note_max(e.note, be / (s.n as f64 * EPS));
+        }
+        rep.check(e.residual, s.regime, ok, || {
+            self.detail(entry, Some(j), routing, json!({"x": jf(x), "finite": all_finite(x), "backward_error": jnum(be), "ratio_to_n_eps": jnum(be / (s.n as f64 * EPS))}))
+        });
+        if let (true, Some(xs)) = (ok, &s.xstar) {
+            let xj = col(xs, s.n, s.k, j);
+            let fe = diff_inf(x, &xj);
+            let bound = 2.0 * self.tol * self.kappa * max_abs(&xj);
+            let okf = fe <= bound;
+            if okf && bound > 0.0 {
+                rep.note_max("worst_ratio.forward_exact_over_bound", fe / bound);
+            }
+            rep.check(e.forward_exact, s.regime, okf, || {
+                self.detail(entry, Some(j), routing, json!({"x": jf(x), "x_exact": jf(&xj), "forward_error": jnum(fe), "bound": jnum(bound)}))
+            });
+        }
+        ok
+    }
+
+    /// two finite answers of the same column may differ by at most the κ-scaled forward bound
+    fn check_agree(&self, rep: &mut Report, assertion: &str, note: &str, j: usize, x: &[f64], y: &[f64], what: &str) {
+        let s = self.s;
+        let d = diff_inf(x, y);
+        let bound = 2.0 * self.tol * self.kappa * max_abs(x).max(max_abs(y));
+        let ok = d <= bound;
+        if ok && bound > 0.0 {
+            rep.note_max(note, d / bound);
+        }
+        rep.check(assertion, s.regime, ok, || self.detail(what, Some(j), "", json!({"x": jf(x), "y": jf(y), "difference": jnum(d), "bound": jnum(bound)})));
+    }
+
+    /// A·Y = I column by column
+    fn check_inverse(&self, rep: &mut Report, e: &Entry, y: &[f64], routing: &str) {
+        let entry = e.name;
+        let s = self.s;
+        let n = s.n;
+        let mut worst = 0.0f64;
+        let mut wj = 0;
+        for j in 0..n {
+            let yj = col(y, n, n, j);
+            let mut e = vec![0.0; n];
+            e[j] = 1.0;
+            let be = backward_error(&s.a, n, self.anorm, &yj, &e);
+            if be > worst || be.is_infinite() {
+                worst = be;
+                wj = j;
+            }
+            if be.is_infinite() {
+                break;
+            }
+        }
+        let ok = worst <= self.tol;
+        if ok {
+            rep.note_max(e.note, worst / (n as f64 * EPS));
+        }
+        rep.check(e.residual, s.regime, ok, || {
+            self.detail(entry, Some(wj), routing, json!({"inverse": jf(y), "finite": all_finite(y), "backward_error_worst_column": jnum(worst), "ratio_to_n_eps": jnum(worst / (n as f64 * EPS))}))
+        });
+    }
+}
+
+fn routed(before: (u64, u64), chol: Site, lu: Site) -> &'static str {
+    match (count(chol) > before.0, count(lu) > before.1) {
+        (true, false) => "cholesky",
+        (false, true) => "lu",
+        (false, false) => "none",
+        _ => "both",
+    }
+}
+
+fn one_system(rep: &mut Report, s: &Sys, kappa: f64) {
+    let (n, k) = (s.n, s.k);
+    rep.case(s.regime);
+    rep.seen(RHS_COLUMNS[k - 1], 1);
+    rep.distinct(Hasher::new().s(s.regime).u(n as u64).u(bits_digest(&s.a)).finish(), n >= 2 && !is_diagonal(&s.a, n));
+    let cx = Ctx { s, anorm: linref::inf_norm(&s.a, n, n), kappa, tol: C * n as f64 * EPS };
+    let no_panic = |rep: &mut Report, e: &Entry, r: &Result<(), String>, routing: &str| {
+        rep.check(e.no_panic, s.regime, r.is_ok(), || cx.detail(e.name, None, routing, json!({"panic": r.clone().err()})))
+    };
+    let shape = |rep: &mut Report, e: &Entry, ok: bool, got: Value| rep.check(e.shape, s.regime, ok, || cx.detail(e.name, None, "", got));
+
+    // 1. slice solver, one column at a time
+    let mut single: Vec<Option<Vec<f64>>> = Vec::with_capacity(k);
+    let mut routing_single = "none";
+    for j in 0..k {
+        let bj = col(&s.b, n, k, j);
+        let before = (count(Site::SolveChol), count(Site::SolveLu));
+        let r = guard(|| solve(&s.a, &bj));
+        let routing = routed(before, Site::SolveChol, Site::SolveLu);
+        if j == 0 {
+            routing_single = routing;
+            rep.seen(match routing {
+                "cholesky" => "routing:solve:cholesky",
+                "lu" => "routing:solve:lu",
+                _ => "routing:solve:other",
+            }, 1);
+        }
+        no_panic(rep, &SOLVE, &r.as_ref().map(|_| ()).map_err(|e| e.clone()), routing);
+        single.push(match r {
+            Ok(x) => {
+                if shape(rep, &SOLVE, x.len() == n, json!({"len": x.len()})) && cx.check_column(rep, &SOLVE, j, &x, routing) {
+                    Some(x)
+                } else {
+                    None
+                }
+            }
+            Err(_) => None,
+        });
+    }
+
+    // 2. multi-RHS slice solver
+    let before = (count(Site::SolveSysChol), count(Site::SolveSysLu));
+    let r = guard(|| solve_sys(&s.a, &s.b));
+    let routing_sys = routed(before, Site::SolveSysChol, Site::SolveSysLu);
+    rep.seen(match routing_sys {
+        "cholesky" => "routing:solve_sys:cholesky",
+        "lu" => "routing:solve_sys:lu",
+        _ => "routing:solve_sys:other",
+    }, 1);
+    no_panic(rep, &SOLVE_SYS, &r.as_ref().map(|_| ()).map_err(|e| e.clone()), routing_sys);
+    if let Ok(x) = r {
+        if shape(rep, &SOLVE_SYS, x.len() == n * k, json!({"len": x.len()})) {
+            for j in 0..k {
+                let xj = col(&x, n, k, j);
+                if cx.check_column(rep, &SOLVE_SYS, j, &xj, routing_sys) {
+                    if let Some(xs) = &single[j] {
+                        cx.check_agree(rep, "C01.solve_sys.vs_single", "worst_ratio.solve_sys.vs_single", j, &xj, xs, "solve_sys vs solve");
+                    }
+                }
+            }
+        }
+    }
+
+    // 3. slice inverse
+    let before = (count(Site::SolveSysChol), count(Site::SolveSysLu));
+    let r = guard(|| invert_matrix(&s.a));
+    let routing_inv = routed(before, Site::SolveSysChol, Site::SolveSysLu);
+    no_panic(rep, &INVERT_MATRIX, &r.as_ref().map(|_| ()).map_err(|e| e.clone()), routing_inv);
+    if let Ok(y) = r {
+        if shape(rep, &INVERT_MATRIX, y.len() == n * n, json!({"len": y.len()})) {
+            cx.check_inverse(rep, &INVERT_MATRIX, &y, routing_inv);
+        }
+    }
+
+    // 4. Matrix::solve(&Vector)
+    let m = Matrix::new(s.a.clone(), n as i32, n as i32);
+    let mut single_m: Vec<Option<Vec<f64>>> = Vec::with_capacity(k);
+    for j in 0..k {
+        let bj = Vector::new(col(&s.b, n, k, j));
+        let r = guard(|| m.solve(&bj));
+        no_panic(rep, &M_SOLVE_VEC, &r.as_ref().map(|_| ()).map_err(|e| e.clone()), "lu");
+        single_m.push(match r {
+            Ok(x) => {
+                let x: Vec<f64> = x.to_vec();
+                if shape(rep, &M_SOLVE_VEC, x.len() == n, json!({"len": x.len()})) && cx.check_column(rep, &M_SOLVE_VEC, j, &x, "lu") {
+                    Some(x)
+                } else {
+                    None
+                }
+            }
+            Err(_) => None,
+        });
+    }
+
+    // 5. Matrix::solve(&Matrix)
+    let bm = Matrix::new(s.b.clone(), n as i32, k as i32);
+    let r = guard(|| m.solve(&bm));
+    no_panic(rep, &M_SOLVE_MAT, &r.as_ref().map(|_| ()).map_err(|e| e.clone()), "lu");
+    if let Ok(x) = r {
+        if shape(rep, &M_SOLVE_MAT, x.nrows == n && x.ncols == k && x.data.len() == n * k, json!({"shape": [x.nrows, x.ncols], "len": x.data.len()})) {
+            for j in 0..k {
+                let xj = col(&x.data, n, k, j);
+                if cx.check_column(rep, &M_SOLVE_MAT, j, &xj, "lu") {
+                    if let Some(xs) = &single_m[j] {
+                        cx.check_agree(rep, "C01.Matrix.solve_mat.vs_single", "worst_ratio.Matrix.solve_mat.vs_single", j, &xj, xs, "Matrix::solve(&Matrix) vs Matrix::solve(&Vector)");
+                    }
+                }
+            }
+        }
+    }
+
+    // 6. Matrix::inv
+    let r = guard(|| m.inv());
+    no_panic(rep, &M_INV, &r.as_ref().map(|_| ()).map_err(|e| e.clone()), "lu");
+    if let Ok(y) = r {
+        if shape(rep, &M_INV, y.nrows == n && y.ncols == n && y.data.len() == n * n, json!({"shape": [y.nrows, y.ncols], "len": y.data.len()})) {
+            cx.check_inverse(rep, &M_INV, &y.data, "lu");
+        }
+    }
+
+    // 7. the two public families must agree with each other as well
+    for j in 0..k {
+        if let (Some(x), Some(y)) = (&single[j], &single_m[j]) {
+            cx.check_agree(rep, "C01.entrypoints.agree", "worst_ratio.entrypoints.agree", j, x, y, "solve vs Matrix::solve(&Vector)");
+        }
+    }
+
+    // 8. routing independence: when Cholesky ran, rotate the rows (P·A x = P·b) so that LU has to run
+    if routing_single == "cholesky" && n >= 2 {
+        let mut forced = false;
+        for shift in [1usize, n / 2 + 1, n - 1] {
+            let shift = shift % n;
+            if shift == 0 {
+                continue;
+            }
+            let mut pa = vec![0.0; n * n];
+            for i in 0..n {
+                let src = (i + shift) % n;
+                pa[i * n..(i + 1) * n].copy_from_slice(&s.a[src * n..(src + 1) * n]);
+            }
+            let b0 = col(&s.b, n, k, 0);
+            let pb: Vec<f64> = (0..n).map(|i| b0[(i + shift) % n]).collect();
+            let before = (count(Site::SolveChol), count(Site::SolveLu));
+            let r = guard(|| solve(&pa, &pb));
+            if routed(before, Site::SolveChol, Site::SolveLu) != "lu" {
+                continue;
+            }
+            forced = true;
+            rep.seen("routing:forced-lu-variant", 1);
+            match r {
+                Ok(x) => {
+                    let be = backward_error(&pa, n, linref::inf_norm(&pa, n, n), &x, &pb);
+                    let ok = be <= cx.tol;
+                    if ok {
+                        rep.note_max("worst_ratio.routing.lu_variant.backward_error_over_n_eps", be / (n as f64 * EPS));
+                    }
+                    rep.check("C01.routing.lu_variant.residual", s.regime, ok, || cx.detail("solve(P·A, P·b)", Some(0), "lu", json!({"row_rotation": shift, "x": jf(&x), "backward_error": jnum(be)})));
+                    if let (true, Some(xc)) = (ok, &single[0]) {
+                        cx.check_agree(rep, "C01.routing.agree", "worst_ratio.routing.agree", 0, xc, &x, "solve(A,b) [cholesky] vs solve(P·A,P·b) [lu]");
+                    }
+                }
+                Err(e) => {
+                    rep.check("C01.routing.lu_variant.no_panic", s.regime, false, || cx.detail("solve(P·A, P·b)", Some(0), "lu", json!({"panic": e})));
+                }
+            }
+            break;
+        }
+        if !forced {
+            rep.seen("routing:lu-variant-not-forceable", 1);
+        }
+    }
+    rep.sample(|| json!({"class": s.regime, "how": s.how, "n": n, "rhs_columns": k, "cond_inf": jnum(kappa), "routing_solve": routing_single, "routing_solve_sys": routing_sys}));
+}
+
+pub fn run(cfg: &Cfg, rep: &mut Report) {
+    rep.rule = "case i: class = CLASSES[i mod 8], order n = 1 + (i div 8) mod Nmax (every class meets every order), 1..6 right-hand-side columns at random; each system goes through all six entry points. non-trivial = order >= 2 and A not diagonal; distinct by hash of (class, n, bits of A)".into();
+    rep.assume("A is finite, of order 1..32, nonsingular with cond_inf below 1e10 (1e14 for the graded / triangular classes) as measured by a double-double inverse; singular and non-finite inputs are outside the quantifier");
+    rep.assume(&format!("backward-error bound C·n·eps with C = {} and eps = 2^-52, per column: |A x_j - b_j|_inf <= C n eps (|A|_inf |x_j|_inf + |b_j|_inf); forward comparisons use 2·C·n·eps·cond_inf", C));
+    rep.assume("sym-indef-posdiag needs order >= 2 (order 1 is replaced by 2); tiny-nonsym-posdiag = every |a_ij - a_ji| <= 2^-52 without exact symmetry, positive diagonal (order >= 2)");
+    if cfg.miri() {
+        rep.assume("Miri layer: 24 systems of order 2, 5, 12; residual sums in plain f64 instead of double-double (adds < 1 to ratios compared with C = 16), cond_inf from an f64 Gauss-Jordan inverse");
+    }
+    let nmax = if cfg.miri() { 12 } else { 32 };
+    // Miri is not a registered layer for C01 (memcheck is); a 24-system smoke keeps it affordable there
+    const MIRI_ORDERS: [usize; 3] = [2, 5, 12];
+    let ncases = if cfg.miri() { 24 } else { cfg.pick(3000, 60000, 96) };
+    par_cases(cfg, rep, 1, ncases, |i, rng: &mut Rng, rep| {
+        let class = CLASSES[i % CLASSES.len()];
+        let mut n = if cfg.miri() { MIRI_ORDERS[(i / CLASSES.len()) % 3] } else { 1 + (i / CLASSES.len()) % nmax };
+        if (class == "sym-indef-posdiag" || class == "tiny-nonsym-posdiag") && n < 2 {
+            n = 2;
+        }
+        match generate(rng, class, n) {
+            Some((s, kappa)) => one_system(rep, &s, kappa),
+            None => rep.seen(&format!("generator-gave-up:{}", class), 1),
+        }
+    });
+    for c in CLASSES {
+        rep.require(c, 1);
+    }
+    for site in ["solve.chol", "solve.lu", "solve_sys.chol", "solve_sys.lu"] {
+        rep.require(site, 1);
+    }
+    rep.require("routing:forced-lu-variant", 1);
+    if !cfg.miri() {
+        for k in 1..=6 {
+            rep.require(RHS_COLUMNS[k - 1], 1);
+        }
+    }
 }
